@@ -260,10 +260,53 @@ def build(g):
 _cache = {}
 
 
+def sly_defaulted_tail(src):
+    """the statements of sly's LRTable.__init__ that compute `defaulted_states`, as a function of `self` (interpreted by the callers on action tables)"""
+    import ast
+    from .source import AnalysisError, memo_on
+
+    def make():
+        tree = src.tree('sly/yacc.py')
+        init = None
+        for n in ast.walk(tree):
+            if isinstance(n, ast.ClassDef) and n.name == 'LRTable':
+                for f in n.body:
+                    if isinstance(f, ast.FunctionDef) and f.name == '__init__':
+                        init = f
+        if init is None:
+            raise AnalysisError('sly/yacc.py: LRTable.__init__ not found')
+        first = next((k for k, st in enumerate(init.body) if any((isinstance(x, ast.Name) and 'defaulted' in x.id) or (isinstance(x, ast.Attribute) and 'defaulted' in x.attr)
+                                                                  for x in ast.walk(st))), None)
+        if first is None:
+            raise AnalysisError('sly/yacc.py: LRTable.__init__ does not compute defaulted_states')
+        tail = ast.FunctionDef(name='defaulted_states_tail', args=ast.arguments(posonlyargs=[], args=[ast.arg(arg='self')], kwonlyargs=[], kw_defaults=[], defaults=[]),
+                               body=list(init.body[first:]), decorator_list=[], lineno=init.body[first].lineno, col_offset=0)
+        ast.fix_missing_locations(tail)
+        return tail, init.body[first].lineno
+    return memo_on(src, ('sly-defaulted-tail',), make)
+
+
 def tables_for(src, dialect):
     from .grammar import load_dialect
-    from .source import memo_on
-    return memo_on(src, ('lalr', dialect), lambda: build(load_dialect(src, dialect)))
+    from .source import memo_on, AnalysisError
+
+    def make():
+        T = build(load_dialect(src, dialect))
+        # which states the driver treats as defaulted is sly's decision: its own code is interpreted on the reconstructed action table
+        from .interp import Interp, Obj, Raised, Env
+        tail, _ = sly_defaulted_tail(src)
+        self_ = Obj('LRTable', lr_action={st: dict(act) for st, act in enumerate(T.action)})
+        try:
+            Interp.for_file(src, 'sly/yacc.py', {}, {}, max_steps=20_000_000).call_function(tail, [self_], {}, Env())
+        except Raised as r:
+            raise AnalysisError(f'sly/yacc.py: the computation of defaulted_states raises {r.exc_name} on the {dialect} tables')
+        ds = self_.attrs.get('defaulted_states')
+        if not isinstance(ds, dict):
+            raise AnalysisError('sly/yacc.py: LRTable.__init__ leaves no defaulted_states table')
+        T.defaulted_formula = dict(T.defaulted)
+        T.defaulted = dict(ds)
+        return T
+    return memo_on(src, ('lalr', dialect), make)
 
 
 def kind(t, st, a):
